@@ -195,6 +195,12 @@ func runC07(c *Ctx) {
 				eval("truncated", req[:n], nil, nil)
 			}
 			eval("extended", append(append([]byte{}, req...), 0), nil, nil)
+			if k == 0 {
+				// trailing data whose length is a multiple of 2^16 (a length computed in 16-bit arithmetic does not see it)
+				for _, extra := range []int{255, 256, 65535, 65536, 65537, 131072} {
+					eval("extended-2^16", append(append([]byte{}, req...), make([]byte, extra)...), nil, nil)
+				}
+			}
 			// bytes inserted at every field boundary (in particular between ciphertext and signature) and removed there
 			for _, at := range []int{2, 51, 83, 85, 117, len(req) - 96, len(req) - 48} {
 				for _, junk := range [][]byte{{0}, r.Bytes(1 + r.IntN(8)), r.Bytes(96)} {
